@@ -76,11 +76,84 @@ FIXED = [('fixed', 'tzutc', None, 0), ('fixed', 'UTC', None, 0), ('fixed', 'tzof
          ('fixed', 'tzstr-fixed', 'EST5', -18000), ('fixed', 'tzrange-fixed', 'XST', 7200)]
 
 
+class RefZone(D.tzinfo):
+    """A PEP 495 tzinfo written by hand from a Timeline -- the kind of class (like zoneinfo.ZoneInfo) that has no
+    is_ambiguous() of its own, so that the library's generic classification code is what answers for it.
+    flat_dst: dst() is zero everywhere (a zone that moves its standard offset, as Moscow did in 2014)."""
+
+    def __init__(self, tl, flat_dst=False):
+        self.tl = tl
+        self.flat = flat_dst
+
+    def _u(self, dt):
+        tl = self.tl
+        w = secs(dt.replace(tzinfo=None))
+        pre = sorted(w - o for o in tl.offsets if tl.at(w - o)[0] == o)
+        if pre:
+            return pre[-1] if dt.fold else pre[0]
+        # a gap: fold=0 reads it with the offset in force before the transition, fold=1 with the one after it
+        for t in tl.transitions:
+            a, b = tl.at(t - 1)[0], tl.at(t)[0]
+            if t + min(a, b) <= w < t + max(a, b):
+                return w - (b if dt.fold else a)
+        return w - tl.at(w - tl.offsets[0])[0]
+
+    def utcoffset(self, dt):
+        return D.timedelta(seconds=self.tl.at(self._u(dt))[0])
+
+    def dst(self, dt):
+        if self.flat:
+            return D.timedelta(0)
+        return D.timedelta(hours=1) if self.tl.at(self._u(dt))[1] else D.timedelta(0)
+
+    def tzname(self, dt):
+        return self.tl.at(self._u(dt))[2]
+
+    def fromutc(self, dt):
+        tl = self.tl
+        u = secs(dt.replace(tzinfo=None))
+        o = tl.at(u)[0]
+        w = u + o
+        pre = sorted(w - x for x in tl.offsets if tl.at(w - x)[0] == x)
+        return (dt + D.timedelta(seconds=o)).replace(fold=1 if len(pre) >= 2 and u == pre[-1] else 0)
+
+    def __repr__(self):
+        return 'RefZone(%s%s)' % (self.tl.label, ', flat dst' if self.flat else '')
+
+
+FOREIGN_FILES = ['Europe/Moscow', 'America/Caracas', 'Asia/Pyongyang', 'Europe/Dublin', 'Australia/Lord_Howe', 'America/New_York',
+                 'Africa/Casablanca', 'Pacific/Apia', 'Asia/Kolkata', 'Antarctica/Troll', 'America/St_Johns', 'Europe/Lisbon']
+
+
+def foreign_cases(k, thorough=False):
+    """hand-written PEP 495 classes over the same timelines: every rule zone with <= k deviations (honest and flat dst),
+    a fixed list of files (thorough: every file) and every synthetic shape"""
+    out = []
+    for c in posix_cases(k, classes=('tzstr',)):
+        out.append(('foreign', c, False))
+        out.append(('foreign', c, True))
+    names = set(n for n, _ in tzif_ref.corpus())
+    for c in tzwalk.zone_cases():
+        if c[0] == 'synthetic' or thorough or c[1] in FOREIGN_FILES:
+            if c[0] == 'file' and c[1] not in names:
+                continue
+            out.append(('foreign', c, c[0] == 'synthetic'))
+    return out
+
+
 @contextlib.contextmanager
 def open_case(case):
     """yields (zone object, Timeline)"""
     from dateutil import tz
     kind = case[0]
+    if kind == 'foreign':
+        inner = tuple(case[1])
+        if inner[0] == 'posix':
+            inner = ('posix', tuple(tuple(x) for x in inner[1]), inner[2])
+        with open_case(inner) as (_, tl):
+            tl.label = 'foreign:' + tl.label
+            yield RefZone(tl, bool(case[2])), tl
+        return
     if kind in ('file', 'synthetic'):
         zone, data, label = tzwalk.load(case)
         z = tzwalk.impl_zone(case, data)
